@@ -758,7 +758,27 @@ def _genbank_roundtrip(o, euk, mode):
     return recs[0].to_annotation_collection()
 
 
+def _gff3_roundtrip(o, fasta):
+    import io
+    import os
+    from inscripta.biocantor.io.gff3.writer import collection_to_gff3
+    from inscripta.biocantor.io.gff3.parser import parse_standard_gff3, parse_gff3_embedded_fasta
+
+    h = io.StringIO()
+    collection_to_gff3([o], h, add_sequences=fasta)
+    path = f"/dev/shm/bcsim-c10-{os.getpid()}.gff3"  # gffutils wants a path; removed right after the parse
+    try:
+        with open(path, "w") as fh:
+            fh.write(h.getvalue())
+        recs = list((parse_gff3_embedded_fasta if fasta else parse_standard_gff3)(path))
+    finally:
+        if os.path.exists(path):
+            os.unlink(path)
+    return recs[0].to_annotation_collection()
+
+
 ANNOTATION_COLLECTION_OPS += [
+    S("gff3_roundtrip", _gff3_roundtrip, "bool", result="collection", weight=1.5),
     S("collection_to_gff3", _export_gff3, "bool", "bool", weight=2.0),
     S("collection_to_genbank", _export_genbank, "bool", "bool", weight=2.0),
     S("collection_to_tbl", _export_tbl, "bool", "bool", weight=2.0),
